@@ -63,7 +63,7 @@ def _parse(out):
 
 def _playback_vals(kdir, tgt, name):
     """all concrete-playback value lists Kani prints for failed (non-cover) checks of the harness"""
-    rc, out, dt = _sh(f"ulimit -v {KANI_MEM_KB}; cargo kani --target-dir {tgt} -Z concrete-playback --concrete-playback=print --output-format terse --exact --harness gen::{name}", kdir, 900)
+    rc, out, dt = _sh(f"ulimit -v {KANI_MEM_KB}; cargo kani --target-dir {tgt} -Z concrete-playback -Z stubbing --concrete-playback=print --output-format terse --exact --harness gen::{name}", kdir, 900)
     cands = []
     for m in re.finditer(r"/// Check for `([a-z_]+)`: (.*?)\n.*?let concrete_vals: Vec<Vec<u8>> = vec!\[(.*?)\n\s*\];", out, re.S):
         kind, desc, body = m.group(1), m.group(2), m.group(3)
@@ -110,7 +110,7 @@ def run(prop, tier, seed, ROOT, REPO, CACHE, OUT):
     to = HARNESS_TIMEOUT_T if tier == "thorough" else HARNESS_TIMEOUT_Q
     filt = " ".join(f"--harness gen::{h['name']}" for h in sel)
     jobs = min(len(sel), os.cpu_count() or 8)
-    cmd = f"ulimit -v {KANI_MEM_KB}; cargo kani --target-dir {tgt} -j {jobs} --output-format terse -Z unstable-options --harness-timeout {to}s --exact {filt}"
+    cmd = f"ulimit -v {KANI_MEM_KB}; cargo kani --target-dir {tgt} -j {jobs} --output-format terse -Z unstable-options -Z stubbing --harness-timeout {to}s --exact {filt}"
     t0 = time.time()
     rc, out, dt = _sh(cmd, kdir, to * 3 + 1200)
     inconclusive, violations, samples = [], [], []
